@@ -264,10 +264,35 @@ fn raise_abort() -> ! {
     std::panic::resume_unwind(Box::new(SimAbort))
 }
 
+static PARKED: [AtomicBool; MAXT] = [const { AtomicBool::new(false) }; MAXT];
+static HANDLES: Mutex<Vec<Option<std::thread::Thread>>> = Mutex::new(Vec::new());
+
+/// Hands the baton to thread `n` (and wakes it if it went to sleep while waiting).
+fn pass_baton(n: usize) {
+    SH.current.store(n, O::SeqCst);
+    if n < MAXT && PARKED[n].load(O::SeqCst) {
+        let h = HANDLES.lock().unwrap_or_else(|e| e.into_inner());
+        if let Some(Some(t)) = h.get(n) {
+            t.unpark();
+        }
+    }
+}
+
+fn register_handle(t: usize) {
+    let mut h = HANDLES.lock().unwrap_or_else(|e| e.into_inner());
+    if h.len() < MAXT {
+        h.resize(MAXT, None);
+    }
+    h[t] = Some(std::thread::current());
+}
+
+/// Waits for the baton: spin, then yield, then sleep (woken by `pass_baton`; the timeout makes a
+/// missed wake-up harmless). Who runs is decided by the scheduler alone; this only decides how
+/// the waiting threads burn (or do not burn) CPU.
 fn wait_for_baton(me: usize) {
     let mut spins = 0u32;
     loop {
-        if SH.current.load(O::Acquire) == me {
+        if SH.current.load(O::SeqCst) == me {
             return;
         }
         if SH.abort.load(O::Relaxed) {
@@ -276,8 +301,14 @@ fn wait_for_baton(me: usize) {
         spins += 1;
         if spins < 64 {
             std::hint::spin_loop();
-        } else {
+        } else if spins < 160 || me >= MAXT {
             std::thread::yield_now();
+        } else {
+            PARKED[me].store(true, O::SeqCst);
+            if SH.current.load(O::SeqCst) != me && !SH.abort.load(O::SeqCst) {
+                std::thread::park_timeout(std::time::Duration::from_micros(500));
+            }
+            PARKED[me].store(false, O::SeqCst);
         }
     }
 }
@@ -570,7 +601,7 @@ fn perform(h: Handoff, me: usize) {
     match h {
         Handoff::Keep => {}
         Handoff::To(n) => {
-            SH.current.store(n, O::Release);
+            pass_baton(n);
             wait_for_baton(me);
             if SH.abort.load(O::Relaxed) {
                 if !std::thread::panicking() {
@@ -1137,6 +1168,7 @@ where
                 .stack_size(256 * 1024)
                 .spawn_scoped(s, move || {
                     TID.with(|c| c.set(t));
+                    register_handle(t);
                     wait_for_baton(t);
                     let r = std::panic::catch_unwind(std::panic::AssertUnwindSafe(|| {
                         if SH.abort.load(O::Relaxed) {
@@ -1158,7 +1190,7 @@ where
             st.pick(None)
         };
         match first {
-            Some(t) if t != MAIN => SH.current.store(t, O::Release),
+            Some(t) if t != MAIN => pass_baton(t),
             _ => SH.abort.store(true, O::SeqCst),
         }
     });
@@ -1182,7 +1214,7 @@ fn finish(me: usize) {
         st.pick(Some(me))
     };
     match next {
-        Some(n) => SH.current.store(n, O::Release),
+        Some(n) => pass_baton(n),
         None => SH.abort.store(true, O::SeqCst),
     }
 }
